@@ -150,7 +150,7 @@ with d_map (fuel : nat) (n : N) (bs : bytes) (acc : list (bytes * gval)) {struct
 
 Definition desc_gval (hexed : bytes) : gval :=
   let bs := unhex hexed in
-  match d_gval (S (S (List.length bs))) bs with Some (v, _) => v | None => GBad end.
+  match d_gval (S (S (3 * List.length bs))) bs with Some (v, _) => v | None => GBad end.
 
 (* entries are described as an array of [EventTime, record] pairs *)
 Definition desc_entries (hexed : bytes) : list entry :=
